@@ -18,8 +18,17 @@ def run(ctx):
     rng = ctx.rng('progs')
     n = 60 if ctx.tier == 'quick' else 700
     nrw = 15 if ctx.tier == 'quick' else 150
-    for k in range(n + nrw):
-        if k >= n:
+    nsw = 10 if ctx.tier == 'quick' else 100
+    import specgen as _sg
+    for k in range(n + nrw + nsw):
+        if k >= n + nrw:
+            # same-named objects of one set around a rejected call (rejected on its origin reference's type, its name, or an attribute):
+            # the accepted ones must still get distinct copy numbers
+            tk = rng.choice(_sg.SET_KINDS)
+            kinds = [None, 'origin_type'] + (apistream.reject_kinds(tk) or [])[:2]
+            prog, _pat = apistream.gen_sandwich(rng, tk, rng.choice(kinds))
+            flavor = 'sandwich'
+        elif k >= n:
             # write, re-originate objects (incl. NO-FORMAT objects with data and frames) and edit values, write again:
             # the second file must be as consistent as the first
             prog, _fresh = apistream.rewrite_history(rng)
